@@ -329,6 +329,7 @@ func ruleShufflePerm(c *Ctx) {
 		// assigns: a plain `r = e` in the list with e the wanted value; other: one with another readable value
 		assignsOther := false
 		assigns := func(list []ast.Stmt, want Poly) bool {
+			_ = assignsOther
 			for _, st := range list {
 				if as, ok := st.(*ast.AssignStmt); ok && len(as.Lhs) == 1 && len(as.Rhs) == 1 {
 					if id, ok := as.Lhs[0].(*ast.Ident); ok && info2.ObjectOf(id) == rObj {
@@ -357,7 +358,17 @@ func ruleShufflePerm(c *Ctx) {
 			if !ok || len(is.Body.List) != 1 {
 				return false
 			}
-			if br, ok := is.Body.List[0].(*ast.BranchStmt); !ok || br.Tok != token.BREAK {
+			switch ex := is.Body.List[0].(type) {
+			case *ast.BranchStmt:
+				if ex.Tok != token.BREAK {
+					return false
+				}
+			case *ast.ReturnStmt:
+				// (the loop is the last thing the function does: leaving the function is leaving the loop)
+				if len(ex.Results) != 0 || f2.Body.List[len(f2.Body.List)-1] != ast.Stmt(loop) {
+					return false
+				}
+			default:
 				return false
 			}
 			cut, q, op := condCutOf(info2, is.Cond, nil)
@@ -378,25 +389,52 @@ func ruleShufflePerm(c *Ctx) {
 			}
 			return false
 		}
-		// start value
+		_ = assigns
+		// start value: what r holds when the loop is entered, forwards and backwards (the value set before the branch
+		// on the direction, overwritten by whatever the taken side assigns)
 		startOK := false
+		var startF, startB Poly
 		{
-			init0 := false
+			valueOf := func(list []ast.Stmt) (Poly, bool) {
+				var v Poly
+				found := false
+				for _, st := range list {
+					if as, ok := st.(*ast.AssignStmt); ok && len(as.Lhs) == 1 && len(as.Rhs) == 1 {
+						if id, ok := as.Lhs[0].(*ast.Ident); ok && info2.ObjectOf(id) == rObj {
+							if p, ok := exprPoly(info2, as.Rhs[0], nil, nil, 0); ok {
+								v, found = p, true
+							} else {
+								return nil, false
+							}
+						}
+					}
+				}
+				return v, found
+			}
+			var v0 Poly
 			for _, st := range f2.Body.List {
 				if st.Pos() >= loop.Pos() {
 					break
 				}
-				if assigns([]ast.Stmt{st}, polyConst(0)) {
-					init0 = true
+				if v, ok := valueOf([]ast.Stmt{st}); ok {
+					v0 = v
+					startF, startB = v, v
 				}
 				if is, ok := st.(*ast.IfStmt); ok {
 					if fwd, bwd, ok := sides(is); ok {
-						back := assigns(bwd, polyAdd(roundsA, polyConst(1), -1))
-						if back && (init0 || assigns(fwd, polyConst(0))) && !assigns(fwd, polyAdd(roundsA, polyConst(1), -1)) {
-							startOK = true
+						if v, ok := valueOf(fwd); ok {
+							startF = v
+						}
+						if v, ok := valueOf(bwd); ok {
+							startB = v
 						}
 					}
 				}
+			}
+			_ = v0
+			if startF != nil && startB != nil {
+				startOK = polyEq(startF, polyConst(0)) && polyEq(startB, polyAdd(roundsA, polyConst(1), -1))
+				assignsOther = !startOK
 			}
 		}
 		startDeviates := !startOK && assignsOther
@@ -737,6 +775,33 @@ func roundsZeroReturns(fd *ast.FuncDecl) bool {
 						return true
 					}
 				}
+				// the same test of an unsigned value: rounds < 1, rounds <= 0, 1 > rounds, 0 >= rounds
+				isRoundsU := func(e ast.Expr) bool {
+					id, ok := ast.Unparen(e).(*ast.Ident)
+					if !ok || id.Obj == nil {
+						return false
+					}
+					if f, ok := id.Obj.Decl.(*ast.Field); ok {
+						if t, ok := f.Type.(*ast.Ident); ok && t.Name == "uint8" {
+							return true
+						}
+					}
+					return false
+				}
+				lit := func(e ast.Expr, v string) bool {
+					l, ok := ast.Unparen(e).(*ast.BasicLit)
+					return ok && l.Value == v
+				}
+				switch be.Op {
+				case token.LSS:
+					return isRoundsU(be.X) && lit(be.Y, "1")
+				case token.LEQ:
+					return isRoundsU(be.X) && lit(be.Y, "0")
+				case token.GTR:
+					return isRoundsU(be.Y) && lit(be.X, "1")
+				case token.GEQ:
+					return isRoundsU(be.Y) && lit(be.X, "0")
+				}
 			}
 			return false
 		}
@@ -892,16 +957,21 @@ func exprPoly(info *types.Info, e ast.Expr, defs map[types.Object]localDef, stop
 			return polyAtom(x.Name), true
 		}
 		if d, ok := defs[info.Uses[x]]; ok && d.pos == 0 {
-			return exprPoly(info, d.rhs, defs, stop, depth+1)
+			// (a definition that cannot be rendered — a map lookup with a literal key — leaves the local as it is)
+			if p, ok := exprPoly(info, d.rhs, defs, stop, depth+1); ok {
+				return p, true
+			}
 		}
 		if defs != nil && polyReach != nil {
 			// (the target's own earlier step `t += x` is not spelled out inside a later step of the same target: the
 			// steps of one target are a list, each read against §self)
 			if d, ok := polyReach.at(info.Uses[x], x); ok && d.pos == 0 && !(isSelf && opAssignDef(polyReach.last)) {
-				if isSelf && polyAbsorbed != nil {
-					polyAbsorbed[polyReach.last.Pos()] = true
+				if p, ok := exprPoly(info, d.rhs, defs, stop, depth+1); ok {
+					if isSelf && polyAbsorbed != nil {
+						polyAbsorbed[polyReach.last.Pos()] = true
+					}
+					return p, true
 				}
-				return exprPoly(info, d.rhs, defs, stop, depth+1)
 			}
 		}
 		if isSelf {
@@ -1022,6 +1092,17 @@ func exprPoly(info *types.Info, e ast.Expr, defs map[types.Object]localDef, stop
 			// a call through a function-typed parameter or local (slotAfter(...)): opaque, named as written
 			if _, isVar := info.ObjectOf(id).(*types.Var); isVar {
 				fnName = id.Name
+				// (resolved forms) a local that holds the function another call handed out (next := bals.Iter()) is
+				// named after that call, not after the local
+				if defs != nil {
+					if d, ok := defs[info.ObjectOf(id)]; ok && d.n == 1 && d.rhs != nil {
+						if mk, ok := ast.Unparen(d.rhs).(*ast.CallExpr); ok {
+							if g := calleeFunc(info, mk); g != nil {
+								fnName = g.Name() + "()"
+							}
+						}
+					}
+				}
 			}
 		}
 		// (type-named forms) the value of an unexported function of zrnt that is not read in place stands where a
